@@ -35,7 +35,18 @@ def tasks(tier, seed):
     out = [('short',), ('bytes',)]
     out += [('product', i) for i in range(len(SYMS))]
     out += [('frames',) + tuple(t) for t in frames.frame_tasks(tier)]
+    # the representative frames once more with debug logging switched on
+    # (process environment: the procedure must work in it all the same)
+    out += [('debug-logging', 'frames', 'rep'),
+            ('debug-logging', 'frames', 'misc')]
     return out
+
+
+def env_tasks(tier, seed):
+    """What is repeated in interpreters started with other flags."""
+    return [('frames', 'rep'), ('frames', 'misc'),
+            ('debug-logging', 'frames', 'rep'),
+            ('debug-logging', 'frames', 'misc'), ('short',)]
 
 
 def peek(ctx, buf, case_label):
@@ -161,7 +172,10 @@ def lib_frames(task, tier, seed):
 
 def run(task, ctx):
     kind = task[0]
-    if kind == 'short':
+    if kind == 'debug-logging':
+        with lib.debug_logging():
+            run(task[1:] + ('[debug logging on]',), ctx)
+    elif kind == 'short':
         alpha = b'\x00\x01\x08\xce\xffA'
         for n in range(0, 7):
             for tup in itertools.product(alpha, repeat=n):
@@ -194,10 +208,14 @@ def run(task, ctx):
                 ctx.case(buf, any(buf), sample=lambda: {'buffer': buf.hex()})
                 peek(ctx, buf, 'product')
     else:
+        env = ''
+        if task[-1] == '[debug logging on]':
+            env, task = ' ' + task[-1], task[:-1]
         for label, data, ch, build in lib_frames(task[1:], ctx.tier,
                                                  ctx.seed):
-            ctx.case(data, True, sample=lambda: {'frame': label,
-                                                 'len': len(data)})
+            label += env
+            ctx.case((data, env), True, sample=lambda: {'frame': label,
+                                                        'len': len(data)})
             client_procedure(ctx, label, data, ch, build)
 
 
@@ -225,4 +243,8 @@ def replay(case, ctx):
         ch = b['channel']
     else:
         data, ch = p.frame.marshal(p.heartbeat.Heartbeat(), 0), 0
+    if '[debug logging on]' in case.get('label', ''):
+        with lib.debug_logging():
+            client_procedure(ctx, case.get('label', ''), data, ch, b)
+        return
     client_procedure(ctx, case.get('label', ''), data, ch, b)
